@@ -456,8 +456,17 @@ func (p *pat) match1(t *Term, b Binds) bool {
 
 var patCache = map[string]*pat{}
 
+// DefaultProg, when set by the driver, makes every Match pattern-guided
+// expansion-aware (see MatchX): a value computed inline or by an unexported
+// single-exit helper gives the same match.
+var DefaultProg *Prog
+
 // Match matches t against the pattern text.
 func Match(pattern string, t *Term) (Binds, bool) {
+	if xProg == nil && DefaultProg != nil {
+		xProg = DefaultProg
+		defer func() { xProg = nil }()
+	}
 	p, ok := patCache[pattern]
 	if !ok {
 		p = ParsePat(pattern)
